@@ -66,6 +66,9 @@ def cases() -> Any:
         # the first two messages carry the SAME task id (a redelivery / a re-kick with with_task_id): still two executions,
         # each with the Context of its own message
         "same_id": st.sampled_from([False, False, True]),
+        # every message carries a label `prio`: typed (int, with a labels_types entry) as taskiq's own client sends it, or - for
+        # the messages flagged here - as a plain string from a producer that announces no label types at all (labels_types null)
+        "untyped": st.one_of(st.none(), st.none(), st.lists(st.booleans(), min_size=4, max_size=4)),
         "requeue_first": st.sampled_from([False, True]),
     }).map(_sanitize))
 
@@ -124,6 +127,16 @@ def run_case(c: Dict[str, Any]) -> Outcome:
 
     res: Dict[str, Any] = {}
 
+    def is_untyped(k: int) -> bool:
+        return bool(c.get("untyped")) and bool(c["untyped"][k % 4]) and not c.get("no_labels")
+
+    def labels_of(k: int) -> Dict[str, Any]:
+        if c.get("no_labels"):
+            return {}
+        if not c.get("untyped"):
+            return {"who": f"w{k}"}
+        return {"who": f"w{k}", "prio": str(k) if is_untyped(k) else k}
+
     def tid_of(k: int) -> str:
         return "id0" if c.get("same_id") and k == 1 else f"id{k}"
 
@@ -148,8 +161,11 @@ def run_case(c: Dict[str, Any]) -> Outcome:
             EXEC.set(k)
             plain = bool((c.get("to_plain") or [False] * 4)[k % 4]) and k > 0 and len(msgs) > 1 and c.get("no_task_ctx")
             kw = {"box": "1,2"} if c.get("box") and not plain else {}     # the same wire value in every message
-            own_labels = {} if c.get("no_labels") else {"who": f"w{k}"}
-            m = b.formatter.dumps(AsyncKicker("plain" if plain else "t", b, own_labels).with_task_id(tid_of(k))._prepare_message(k, slp, **kw)).message
+            own_labels = labels_of(k)
+            tm_ = AsyncKicker("plain" if plain else "t", b, dict(own_labels)).with_task_id(tid_of(k))._prepare_message(k, slp, **kw)
+            if is_untyped(k):
+                tm_.labels, tm_.labels_types = dict(own_labels), None
+            m = b.formatter.dumps(tm_).message
             spans[k] = [loop.time(), None]
             await r.callback(m)
             spans[k][1] = loop.time()
@@ -189,9 +205,9 @@ def run_case(c: Dict[str, Any]) -> Outcome:
                 out.add("C06.a", f"execution of message id{k} appended its own id to its list argument (sent in the short form '1,2') and later "
                                  f"observed {bx}: the argument object is shared with another execution")
     for k, ls in sorted(seen_labels.items(), key=lambda kv: str(kv[0])):
-        want = {} if c.get("no_labels") else {"who": f"w{k}"}
+        want = labels_of(k)
         for got in ls:
-            if got != want:
+            if got != want or any(type(got[x]) is not type(want[x]) for x in want):
                 out.add("C06.a", f"execution of message id{k} (sent with labels {want}) observed labels {got} through its Context")
     stored: Dict[str, List[Any]] = {}
     for tid, is_err, rv, en in res.get("results", []):
@@ -217,7 +233,7 @@ def run_case(c: Dict[str, Any]) -> Outcome:
             if not uc and (nodes[j]["ctx"] or any(nodes[d]["ctx"] for d in dg.descendants(nodes, j))):
                 risky = True
     out.nontrivial = bool(overlap and risky)
-    out.classes = [c_ for c_, f in (("overlap", overlap), ("uncached_ctx_reader", risky), ("custom_ctx", c.get("custom_ctx")), ("dependency_overrides", bool(c.get("overrides"))), ("context_only_via_dependencies", bool(c.get("no_task_ctx"))), ("label_less_messages", bool(c.get("no_labels"))), ("two_messages_same_task_id", bool(c.get("same_id"))),
+    out.classes = [c_ for c_, f in (("overlap", overlap), ("uncached_ctx_reader", risky), ("custom_ctx", c.get("custom_ctx")), ("dependency_overrides", bool(c.get("overrides"))), ("context_only_via_dependencies", bool(c.get("no_task_ctx"))), ("label_less_messages", bool(c.get("no_labels"))), ("two_messages_same_task_id", bool(c.get("same_id"))), ("typed_and_untyped_label_messages", bool(c.get("untyped")) and len({is_untyped(k) for k in range(len(msgs))}) == 2),
                                     ("generator_style", any(nodes[i]["style"] in dg.YIELDING for i in reach))) if f]
     out.trace = {"echoes": {str(k): [list(e[:3]) for e in v[:6]] for k, v in echoes.items()}, "spans": {str(k): v for k, v in spans.items()}}
     return out
